@@ -105,7 +105,11 @@ func newConnScn(rng *RNG, q int) *connScn {
 	s.v = newVConn()
 	dialer := func(ctx context.Context, network, addr string) (net.Conn, error) { return s.v, nil }
 	s.rc = region.NewClient("vconn:0", region.RegionClient, q, 0, "verif", time.Hour, nil, dialer, discardLogger)
-	if err := s.rc.Dial(context.Background()); err != nil {
+	// (dialled with a deadline, as the client does: whatever deadline the set-up puts on the connection
+	// must be gone once it is in service)
+	dctx, dcancel := context.WithTimeout(context.Background(), time.Hour)
+	defer dcancel()
+	if err := s.rc.Dial(dctx); err != nil {
 		s.broken = "dial: " + err.Error()
 		return s
 	}
@@ -278,10 +282,16 @@ func (s *connScn) buildFrame(w *wireInfo, kind string) ([]byte, string) {
 	mr := &pb.MultiResponse{}
 	var cb []byte
 	var desc []string
-	for _, pos := range w.regions {
+	allFail := len(w.regions) > 1 && s.rng.Intn(5) == 0 // every region fails, each with its own class
+	failKinds := []string{"retryable", "nsre", "fatal", "connErr"}
+	s.rng.Shuffle(failKinds)
+	for ri, pos := range w.regions {
 		rar := &pb.RegionActionResult{}
-		if len(pos) > 0 && s.rng.Intn(6) == 0 {
+		if len(pos) > 0 && (allFail || s.rng.Intn(6) == 0) {
 			k := []string{"retryable", "nsre", "connErr", "fatal"}[s.rng.Intn(4)]
+			if allFail {
+				k = failKinds[ri%len(failKinds)]
+			}
 			cls := excClass[k]
 			rar.Exception = &pb.NameBytesPair{Name: &cls, Value: []byte("stack")}
 			for _, p := range pos {
@@ -672,7 +682,8 @@ func (s *connScn) log(act string) {
 		if len(c.results) > s.seenResults[i] {
 			got := c.results[len(c.results)-1]
 			want, answered := s.expect[c.idx]
-			ok := got == "connErr"
+			// a connection-level error needs a failed connection (or is what the server answered)
+			ok := got == "connErr" && region.VerifIsDone(s.rc)
 			if answered {
 				ok = ok || want == "any" || want == got
 			} else {
